@@ -202,6 +202,37 @@ func defaultHooks() map[string]hookFn {
 	unary("Ceil", math.Ceil)
 	unary("Abs", math.Abs)
 	unary("Cbrt", math.Cbrt)
+	// math.Max / math.Min (assembly on amd64): decided by forking on the comparison, in
+	// whatever float semantics the run uses; NaN operands (bit-precise mode) give NaN, as
+	// in the Go specification of these functions. Signed zeros are not distinguished.
+	for _, mm := range []struct {
+		name string
+		op   token.Token
+	}{{"Max", token.GTR}, {"Min", token.LSS}} {
+		mm := mm
+		h["math."+mm.name] = func(e *Exec, fr *frame, args []Value) Value {
+			x, y := args[0].(*Term), args[1].(*Term)
+			if x.IsConst() && y.IsConst() {
+				if mm.name == "Max" {
+					return e.floatConst(math.Max(e.constFloat(x), e.constFloat(y)), 64)
+				}
+				return e.floatConst(math.Min(e.constFloat(x), e.constFloat(y)), 64)
+			}
+			if x.Sort.K == SFP {
+				if e.Decide(e.B.FpIsNaN(x)) {
+					return x
+				}
+				if e.Decide(e.B.FpIsNaN(y)) {
+					return y
+				}
+			}
+			c := e.floatBinop(mm.op, 64, x, y, nil).(*Term)
+			if e.Decide(c) {
+				return x
+			}
+			return y
+		}
+	}
 	h["math.Pow"] = func(e *Exec, fr *frame, args []Value) Value {
 		x, y := args[0].(*Term), args[1].(*Term)
 		if x.IsConst() && y.IsConst() {
